@@ -89,13 +89,15 @@ impl EliasFano {
         }
 
         let n = values.len();
-        let universe = values[n - 1] + 1; // Exclusive upper bound
+        // Exclusive upper bound (saturating: the largest value may be u64::MAX)
+        let universe = values[n - 1].saturating_add(1);
 
-        // Compute optimal split: lower_bits = max(0, floor(log2(u/n)))
+        // Compute optimal split: lower_bits = max(0, floor(log2(u/n))), at most 63 so that
+        // the high part `val >> lower_bits` is always a valid shift
         let lower_bits = if universe <= n as u64 {
             0
         } else {
-            (64 - (universe / n as u64).leading_zeros()) as usize
+            ((64 - (universe / n as u64).leading_zeros()) as usize).min(63)
         };
 
         let lower_mask = if lower_bits == 0 {
